@@ -129,7 +129,8 @@ class ViolationGenerator:
         # Get language-specific threshold
         min_occurrences = config.get_min_occurrences_for_language(language)
 
-        return len(blocks) >= min_occurrences
+        # A duplicate needs at least two distinct (non-overlapping) places to name
+        return len(blocks) >= max(2, min_occurrences)
 
     def _filter_ignored(
         self, violations: list[Violation], ignore_patterns: list[str]
